@@ -82,7 +82,7 @@ def register_tcp_client(R):
         env={"call_hints": {"send": [
             ("the-write-happens-while-this-thread-holds-the-send-lock", "self.__send_lock._ForkSafeLock__unsafe_lock.held_by_me"),
             ("the-endpoint-gets-only-what-the-lock-wait-left-of-the-budget",
-             f"implies({finite}, not isinf(timeout) and (pre(ghost.waited) - old(ghost.waited)) + fin(timeout) <= fin({T}))"),
+             f"implies({finite}, not isinf(arg('timeout')) and (pre(ghost.waited) - old(ghost.waited)) + fin(arg('timeout')) <= fin({T}))"),
         ]}},
         tags="C12 C11 C04",
     )
@@ -109,7 +109,7 @@ def register_tcp_client(R):
         env={"call_hints": {"receive": [
             ("the-read-happens-while-this-thread-holds-the-receive-lock", "self.__receive_lock._ForkSafeLock__unsafe_lock.held_by_me"),
             ("the-endpoint-gets-only-what-the-lock-wait-left-of-the-budget",
-             f"implies({finite}, not isinf(timeout) and (pre(ghost.waited) - old(ghost.waited)) + fin(timeout) <= fin({T}))"),
+             f"implies({finite}, not isinf(arg('timeout')) and (pre(ghost.waited) - old(ghost.waited)) + fin(arg('timeout')) <= fin({T}))"),
         ]}},
         tags="C11 C12 C03",
     )
@@ -157,7 +157,7 @@ def register_udp_client(R):
     T = "old(timeout)"
     finite = f"(not isnone({T}) and not isinf({T}))"
     budget = ("the-endpoint-gets-only-what-the-lock-wait-left-of-the-budget",
-              f"implies({finite}, not isinf(timeout) and (pre(ghost.waited) - old(ghost.waited)) + fin(timeout) <= fin({T}))")
+              f"implies({finite}, not isinf(arg('timeout')) and (pre(ghost.waited) - old(ghost.waited)) + fin(arg('timeout')) <= fin({T}))")
     conv = "self.__endpoint._DatagramEndpoint__sender.protocol._DatagramProtocol__converter"
     dg = f"(fn('S_one', 'bytes', packet) if isnone({conv}) else fn('S_one', 'bytes', fn('K_dto', 'obj', packet)))"
     common_mod = ["ghost.now", "ghost.waited", "ghost.unbounded_waits", "ghost.block_raised"]
